@@ -33,6 +33,9 @@ DTS = {'NETCDF3_CLASSIC': ['f', 'd', 'i', 'h', 'b', 'c'], 'NETCDF3_64BIT_OFFSET'
        'NETCDF4': ['f', 'd', 'i', 'h', 'b', 'c', 'q', 'B', 'H', 'I', 'Q']}
 VATTRS = {'units': 'ppb', 'long_name': 'x y', 'gain': 1.5, 'vrange': [0.5, 5.0], 'flag': ('i4', 3), 'count': 7,
           'small': ('i2', 12), 'tiny': ('i1', -3), 'ratio': ('f4', 0.25),
+          # attributes netCDF tools give a meaning: a quantisation hint (the data are not to be rounded on writing) and a
+          # valid maximum above every value, stored as float32 whatever the variable's type
+          'least_significant_digit': ('i4', 0), 'valid_max': ('f4', 250.5),
           # names that are python attributes of netCDF4.Variable
           'scale': 0.5, 'path': 'x/y', 'name': 'nm', 'parent': 'none'}
 GATTRS = {'title': 'hello world', 'version': ('f4', 1.25), 'levels': ('i4', [1, 2, 3]), 'n': 5, '_private': 'x',
@@ -73,6 +76,9 @@ def gen(rng, tier):
                            # the variable is replaced by one derived from it whose values have another type (arithmetic with
                            # a float, astype): the type that is saved is the type of the values
                            derive=(rng.choice(['half', 'astype']) if how in (None, 'fill_value') and vd and rng.random() < 0.2 else None)))
+            if vs[-1]['hit_default'] or vs[-1]['naninf']:
+                # netCDF4 hides cells above a valid_max on reading: not next to cells that hold the default fill, inf or nan
+                vs[-1]['attrs'] = [a for a in vs[-1]['attrs'] if a != 'valid_max']
             if vs[-1]['derive'] and how:
                 # values 10..99(.25), halved 5..49.6: a fill outside both (a cell that merely equals the fill is read as missing)
                 vs[-1]['fv'] = 120 if dt in 'bBHIQ' else -999
@@ -150,7 +156,8 @@ def build(case):
                 f.variables[v['name']] = var = pnc.PseudoNetCDFVariable(f, v['name'], v['dt'], tuple(v['dims']), values=arr)
             fvd = np.array(v['fv']).astype(v['dt'])[()]
             if how in ('missing_value', 'both_same'):
-                var.missing_value = fvd
+                # the attribute may be stored with another type than its variable (float64 on a float32 variable)
+                var.missing_value = np.float64(fvd) if (v['dt'] == 'f' and v['seed'] % 2 == 0 and how == 'missing_value') else fvd
             if how == '_FillValue':
                 var._FillValue = fvd
             if how == 'both_diff':
